@@ -367,23 +367,23 @@ theorem verifyLightBlock_cinv {c : Client} {new : LightBlock} {now : Int}
     have key : SameTrust c c1 ∧ POK c1 := by
       split at hp
       · split at hp
-        · exact ⟨(verifySequential_spec c.cfg latest.hash rfl (Reach.root _ rfl) hp).1, verifySequential_pok h.1 hp⟩
-        · exact ⟨(vsap_spec c.cfg latest.hash now latest _ _ _ _ _ rfl (Reach.root _ rfl) hp).1,
+        · exact ⟨(verifySequential_spec c.cfg (· = latest.hash) rfl (Reach.root _ rfl) hp).1, verifySequential_pok h.1 hp⟩
+        · exact ⟨(vsap_spec c.cfg (· = latest.hash) now latest _ _ _ _ _ rfl (Reach.root _ rfl) hp).1,
             vsap_pok now latest _ _ _ _ _ h.1 hp⟩
       · split at hp
         · split at hp
           · obtain ⟨rfl, rfl⟩ := Prod.mk.inj hp
             exact ⟨⟨rfl, rfl, rfl⟩, h.1⟩
           · rename_i fb hfb
-            exact ⟨(backwards_spec c.cfg fb.hash _ _ _ _ _ _ (Reach.root _ rfl) hp).1,
+            exact ⟨(backwards_spec c.cfg (· = fb.hash) _ _ _ _ _ _ (Reach.root _ rfl) hp).1,
               backwards_pok _ _ _ _ _ _ h.1 hp⟩
         · split at hp
           · obtain ⟨rfl, rfl⟩ := Prod.mk.inj hp
             exact ⟨⟨rfl, rfl, rfl⟩, h.1⟩
           · rename_i cb hcb
             split at hp
-            · exact ⟨(verifySequential_spec c.cfg cb.hash rfl (Reach.root _ rfl) hp).1, verifySequential_pok h.1 hp⟩
-            · exact ⟨(vsap_spec c.cfg cb.hash now cb _ _ _ _ _ rfl (Reach.root _ rfl) hp).1,
+            · exact ⟨(verifySequential_spec c.cfg (· = cb.hash) rfl (Reach.root _ rfl) hp).1, verifySequential_pok h.1 hp⟩
+            · exact ⟨(vsap_spec c.cfg (· = cb.hash) now cb _ _ _ _ _ rfl (Reach.root _ rfl) hp).1,
                 vsap_pok now cb _ _ _ _ _ h.1 hp⟩
     have hi1 : CInv c1 := h.of key.1 key.2
     simp only at e
